@@ -14,7 +14,7 @@ KINDS = {
             "SearchEmpty", "SearchErr"],
     "C02": ["Result", "BatchErrs", "Map", "Len", "Bytes", "Size", "Outcome_panic", "Outcome_fatal", "Outcome_lost"],
     "C07": ["SmallExact"],
-    "C08": ["RtErr", "RtItems", "RtLinks", "RtEp", "RtLen", "RtBytes", "RtStale",
+    "C08": ["RtErr", "RtItems", "RtLinks", "RtEp", "RtLen", "RtBytes", "RtStale", "RtUnread",
             "RtItems2", "RtLinks2", "RtEp2", "RtLen2", "RtBytes2", "RtStale2"],
 }
 SHORT = {"insert": "ins", "remove": "rem", "update": "upd", "saveload": "sl", "binsert": "bins",
@@ -210,6 +210,9 @@ def hnsw_phase(ctx, part):
         ctx.log("emitted %d histories for %s" % (n[0], metrics))
         # ---- 4. replay on the real code, per metric x selection mode
         combos = [(m, a) for m in metrics for a in ALGOS]
+        if quick:   # every metric and every selection mode, not the full product (+ one seed-rotated extra)
+            extra = combos[(ctx.seed * 5 + 4) % len(combos)]
+            combos = [c for c in combos if c[0] == metrics[0] or c[1] == "simple" or c == extra]
         for ci, (m, a) in enumerate(combos):
             cfgp = ctx.path("cfg-%s-%s.json" % (m, a))
             exact = a != "heuristic-extend"
@@ -250,7 +253,46 @@ def hnsw_phase(ctx, part):
 
 
 def streams_phase(ctx, part):
-    return 0
+    """C08 at index level: header on/off x reader fragmentation x fresh/used target x metadata shapes."""
+    quick = ctx.tier == "quick"
+    d = ctx.specdir()
+    total = 0
+    for ci, (m, a, M) in enumerate([("euclidean", "simple", 2), ("cosine", "heuristic", 3)] if quick else
+                                   [("euclidean", "simple", 2), ("cosine", "heuristic", 3), ("manhattan", "simple", 16)]):
+        cfgp = ctx.path("scfg-%d.json" % ci)
+        json.dump({"index": {"metric": m, "algo": a, "M": M, "MMax": M, "MMax0": 2 * M}, "np": 12, "dim": 5,
+                   "nids": 9, "maxlvl": 2}, open(cfgp, "w"))
+        trace = ctx.path("strace-%d.ndjson" % ci)
+        rank = ctx.path("srank-%d.tla" % ci)
+        n = 54 if quick else 540
+        ctx.run([part, "streams", cfgp, str(n), str(ctx.seed * 77 + ci), trace, rank], timeout=1500)
+        import shutil
+        shutil.copy(rank, os.path.join(d, "HnswRankDef.tla"))
+        viols, nev = vlib.validate_trace(ctx, "HnswTrace", "HnswTrace.cfg", trace, lambda line: True, chunk_events=800)
+        ctx.log("streams %s/%s: validated %d save/load round trips of %d states: %d failed checks" % (m, a, nev, n, len(viols)))
+        total += nev
+        if ctx.pid != "C08":
+            continue
+        # report per (check, metadata shape, header) - the shortest description of what fails
+        evs = vlib.read_ndjson(trace)
+        seen = {}
+        for v in viols:
+            e = evs[v[0]]
+            if v[1] not in KINDS["C08"] and v[1] != "RtUnread":
+                continue
+            sig = "%s@stream:shape=%s" % (v[1], e["shape"])
+            if e["res"] != "ok":
+                sig += ",%s" % e["res"]
+            seen.setdefault(sig, []).append(e)
+        for sig, es in sorted(seen.items()):
+            e = min(es, key=lambda x: x["nitems"])
+            ctx.finding(sig, "%s: save/load of an index with %d items (metadata shape %s, header=%d, reader=%s, target=%s) -> %s %s, %d unread bytes; %d such round trips fail"
+                        % (sig, e["nitems"], e["shape"], e["hdr"], e["reader"], e["tgt"], e["res"], e["err"], e["unread"], len(es)),
+                        {"event": {k: e[k] for k in e if k not in ("pre", "st")}, "pre": e.get("pre"), "post": e.get("st"),
+                         "harness": "part streams (seed %d, cfg %d)" % (ctx.seed * 77 + ci, ci)})
+        if ci == 0:
+            ctx.sample({"stream_roundtrip": {k: evs[3][k] for k in evs[3] if k != "pre"}})
+    return total
 
 
 def sample_history(ctx, trace):
